@@ -143,13 +143,20 @@ def build_set(case):
 def _expected(case, ctx):
     """-> ('refuse', why) | ('skip', why) | ('layout', rel, fitted?)"""
     lay = case['layout']
+    kind = 'layout'
     if case['relativize']:
         try:
             rel = R.relativize(lay, case['vw'], case['vh'])
         except R.NeedsDimension as e:
-            if getattr(e, 'cells', False):
-                return ('refuse-or-cells', None)
-            return ('refuse', str(e))
+            if not getattr(e, 'cells', False):
+                return ('refuse', str(e))
+            # a cell length needs no video dimension in principle (32 x 15 grid): the writer may refuse, but
+            # what it writes instead must be the exact cell percentage
+            try:
+                rel = R.relativize(lay, case['vw'], case['vh'], cells_anyway=True)
+            except R.NeedsDimension as e2:
+                return ('refuse', str(e2))
+            kind = 'refuse-or-cells'
     else:
         if not R.is_relative(lay):
             return ('absolute-kept', None)
@@ -170,7 +177,7 @@ def _expected(case, ctx):
         else:
             ctx.count('fit_extent_unchanged')
         rel = fitted
-    return ('layout', rel)
+    return (kind, rel)
 
 
 def _cmp_pair(attr, want, fails, what, ctx):
@@ -241,7 +248,9 @@ def check(case, ctx):
         f = {'what': 'writer refused although every needed dimension was supplied', 'error': repr(raised)[:300]}
         f.update(info)
         return [f]
-    if exp[0] in ('skip', 'absolute-kept', 'refuse-or-cells'):
+    if exp[0] == 'refuse-or-cells':
+        ctx.count('cell_lengths_written_without_the_video_dimension')
+    if exp[0] in ('skip', 'absolute-kept'):
         if writer == 'WebVTTWriter' and re.search(r'(position|line|size):[\d.]+(px|em|pt|c)\b', out):
             f = {'what': 'WebVTT output contains a non-percentage length', 'output': _extract(writer, out)}
             f.update(info)
